@@ -46,7 +46,7 @@ def run(tier):
                       "the charstrings of the corpus CFF fonts with their real subroutines.")
     ck.assumptions = ["outcome-class agreement with the models is reported (outcome_differs_from_model) but a difference alone is "
                       "not a violation of totality", "IFT client totality is exercised by C18/C19 (malformed patches, failing "
-                      "decoder) and not repeated here", "paint-graph guards are exercised through the corpus drive and C13; the charstring model is exact only while "
+                      "decoder) and, beyond the depth of the child-entry relation, not repeated here", "paint-graph guards are exercised through the corpus drive and C13; the charstring model is exact only while "
                       "coordinates stay within +-16000 units (no 32-bit wrap-around); blend / vsindex are evaluated without blend state", "deadline 20 s per driven font, 5 s per model case"]
     wd = vlib.workdir(PID)
     vlib.stage_specs(wd, "vm", "common")
@@ -99,6 +99,10 @@ def run(tier):
     res = vlib.run_harness("fv-total", ["c02", "deep", "--out", t5], timeout=3000)
     ck.add_harness("deep-chains", res, traces=False)
     validate(ck, wd, "deep", t5)
+    # IFT format 2 mapping: the child-entry relation (IFT.tla: Intersects(E, i, d) refers to earlier entries only) as a chain of
+    # 300000 entries, ignored and not, conjunctive and disjunctive: an answer, not an exhausted stack (a dead child is a violation)
+    res = vlib.run_harness("fv-ift", ["c19", "deepchain", "--n", 300000, "--out", os.path.join(wd, "deepchain.ndjson")], timeout=1200)
+    ck.add_harness("deep-chains:ift-child-entries", res, traces=False)
     # the CFF / CFF2 charstring evaluator: Charstring.tla as a state machine over a program family (bounds, halting), every
     # program replayed on the real evaluator in a child process, and the charstrings of the corpus CFF fonts validated
     vlib.stage_specs(wd, "cff")
